@@ -195,7 +195,9 @@ def cl_new_list(eng, items, st):
         # elist: (predicted size, element) per element, in order
         return V('seq', extra={'len': NEL, 'facts': [NEL >= 0], 'elist': True,
                                'get': (lambda eng_, i, st_: vtuple([vint(EL_SIZE(i)), V('any', EL_VAL(i))]))})
-    return V('ref', cls='CBuf', oid='list!%d' % next(eng.counter), extra={'res': k == 1, 'truth': z3.Bool('open_clump_nonempty')})
+    # (which of the lists made here is the result and which the open clump is decided by their USE, not by the order
+    # in which they are made)
+    return V('ref', cls='CBuf', oid='list!%d' % next(eng.counter), extra={'truth': z3.Bool('open_clump_nonempty')})
 
 
 def cl_getattr(eng, obj, name, st, node):
@@ -206,7 +208,8 @@ def cl_getattr(eng, obj, name, st, node):
         return [(st, V('func', py=('spec', eapp)))]
     if obj.k == 'ref' and obj.cls == 'CBuf' and name == 'append':
         def app(eng, args, kwargs, st, node, _o=obj):
-            st.trace.append(('res-append' if _o.extra['res'] else 'clump-append', _o, args[0]))
+            into_result = args[0].k == 'ref' and args[0].cls == 'CBuf'        # a whole clump goes into the result list
+            st.trace.append(('res-append' if into_result else 'clump-append', _o, args[0]))
             return [(st, NONE)]
         return [(st, V('func', py=('spec', app)))]
     return None
@@ -271,7 +274,7 @@ def cl_pass(c, L):
         return z3.And(base, acc0 + s + 4 < c.size, ev[0][2].z == EL_VAL(i), acc1 == acc0 + s + 4,
                       acc1 < c.size)                                        # stays below the limit
     if kinds == ['res-append', 'new-list', 'clump-append']:
-        ok = (ev[0][2] is old and ev[2][1] is cur and cur is not old and ev[2][2].k == 'any')   # old closed, new opened
+        ok = (ev[0][2] is old and ev[0][1] is not old and ev[2][1] is cur and cur is not old and ev[2][2].k == 'any')   # old closed, new opened
         if not ok:
             return z3.BoolVal(False)
         return z3.And(base, acc0 + s + 4 >= c.size, ev[2][2].z == EL_VAL(i), acc1 == 16 + s + 4)   # alone in a fresh clump
@@ -286,17 +289,17 @@ def cl_post(c):
     tail = [e for e in t[heads[-1]:] if e[0] in ('res-append', 'clump-append', 'new-list')]
     cur = c.st.env['clump']
     r = c.resultv
-    is_res = r.k == 'ref' and r.cls == 'CBuf' and r.extra.get('res')
+    is_res = r.k == 'ref' and r.cls == 'CBuf' and r is not cur
     if cur is None or cur.k != 'ref':
         return z3.BoolVal(False)
     nonempty = cur.extra['truth']
-    delivered = len(tail) == 1 and tail[0][0] == 'res-append' and tail[0][2] is cur
+    delivered = len(tail) == 1 and tail[0][0] == 'res-append' and tail[0][2] is cur and tail[0][1] is r
     return z3.And(z3.BoolVal(bool(is_res)), z3.BoolVal(len(tail) <= 1),
                   z3.BoolVal(bool(delivered)) == nonempty)
 
 
 def clump_kind(eng, name):
-    return V('ref', cls='CBuf', oid='open-clump', extra={'res': False, 'truth': z3.Bool('open_clump_nonempty')})
+    return V('ref', cls='CBuf', oid='open-clump', extra={'truth': z3.Bool('open_clump_nonempty')})
 
 
 contract(F, 'NetAddr._clump_bundle', props=('C06',),
